@@ -24,7 +24,10 @@ C29_FORMATS = ["B", "H", "I", "Q", "b", "h", "i", "q", "x", "x", "IH", "QB",
                # one value, spelled with a byte-order mark
                "<H", ">I", "=q", "<B",
                # one value followed by pad bytes
-               "Bx", "Hxx", "hx"]
+               "Bx", "Hxx", "hx",
+               # byte strings (binary blobs: trailing zero bytes belong to
+               # the value), a char, a Pascal string
+               "4s", "6s", "c", "8p", "1s"]
 C29_PLAIN = 8      # classes 0..7 derive from Device
 C29_DERIVED = 4    # classes 8..11 derive from class k-8 and re-declare
 
